@@ -269,11 +269,15 @@ fn js_str(s: &str) -> String {
 }
 
 fn render_attr_string(value: &str) -> String {
-    // JSX attribute strings: no escapes; pick the quote not contained; `&` avoided by generators
-    if !value.contains('"') {
-        format!("\"{value}\"")
+    // JSX attribute strings have no escapes but HTML entities are decoded: `&` is written as
+    // `&amp;`; the quote not contained is used, `&quot;` when both occur
+    let v = value.replace('&', "&amp;");
+    if !v.contains('"') {
+        format!("\"{v}\"")
+    } else if !v.contains('\'') {
+        format!("'{v}'")
     } else {
-        format!("'{value}'")
+        format!("\"{}\"", v.replace('"', "&quot;"))
     }
 }
 
